@@ -78,6 +78,12 @@ CLAIMED = {
    text="Proof: c14_live_after_collect_is_reachable_count (on Gc/Model.v, the model tied to src/gc.rs by the C13 correspondence): for every well-formed heap the number of live objects after collect equals the number of objects reachable from live guards - cycles, closures, settled promises do not matter. c14_every_exit_releases_its_roots / c14_program_leaves_no_roots (Runs/Exits.v, mirroring PushScope/PopScope, Break/Continue with scope counts, finally in the scope of its try, frame return and generator resume after fixes 49d9f87, 6615b90): by induction over fuel and statement structure, every statement, however control leaves it, restores the environment-guard depth it found; the pre-fix leaks (break out of a scoped block, return from inside a block, generator resume) are refuted by vm_compute witnesses. Tie on every run: 160 (1500) programs of the structured language rendered to TypeScript and run 6 times: outcome kind, console trace and env_guards compared with run_program evaluated in Coq, heap constant; 47 corpus programs x {script, module} + 40 (600) generated programs repeated 8 (16) times under GC thresholds {default, 1, 5}, incl. runs ending in uncaught errors: live objects after collect() constant after 2 warm-up runs; FactsAgreeC14 (push_env_guard/pop_env_guard sites).",
    note="Trusted: Coq kernel + vm_compute; C13's correspondence for the Gc model; the verif_summary hook and gc_stats; Rust harness; Python generators. Not modelled: values held in registers/pools (register_guard release is covered by the measurements only); a try statement nested directly inside a finally block is excluded from the generated structured programs (C01 known deviation L-Control).",
    design_ref="DESIGN.md §5 C14"),
+ "C02": dict(
+   engine="Gc",
+   technique="Coq proof on the Gc model (a collection leaves every guard-reachable object in place with value and references; host reads through handles unchanged; reachability unchanged) + search over programs x collection schedules on the real interpreter with a stale-handle detector",
+   text="Proof: c02_reachable_objects_survive, c02_reads_unchanged_by_collection, c02_reachability_unchanged on Gc/Model.v (tied to src/gc.rs by the C13 op-by-op correspondence), for every well-formed heap: no object reachable from a live guard is reset, pooled or altered by a collection, and what a handle to it reads is the same with or without the collection; the only way a value changes under the mutator is the model's named one, a handle to an object no guard reaches (refuted-by-witness theorem). Partial: that the INTERPRETER keeps everything it still uses guard-reachable (the guard-before-allocate discipline of every native and of the VM) is outside the model; it is decided by the search. Search on every run: 551 (950) programs - C14 corpus, C07 await templates with host orders, generator templates, C01 library probes, 64 detach-in-callback shapes x 3 element origins, generated programs - x 6 (9) collection schedules (disabled, thresholds 100/7/5/3/2/1, host collect() after every / every third step): outcome tuple identical to the collection-disabled run and the generation-stamp hook silent.",
+   note="Trusted: Coq kernel; C13's correspondence for the Gc model; the generation-stamp hook in gc.rs (cfg tsrun_verif); Rust harness; Python generators. Six native defects found by the search were fixed (cebed6e).",
+   design_ref="DESIGN.md §5 C02"),
 }
 
 NOT_YET = "not claimed yet in this revision: its model/theorem pair is not built; see DESIGN.md §5 and §8 (build order)"
